@@ -37,6 +37,10 @@ abbrev M (ω α : Type) := ω → Res α × ω
   | (.thrown e, w') => (.thrown e, w')
   | (.halted, w') => (.halted, w')
 
+/-- the iteration budget a function starts its loops with: its own `fuel` (a marker, so that proofs can
+generalise the loop counter without touching the `fuel` handed on to callees) -/
+def loopFuel (fuel : Nat) : Nat := fuel
+
 /-- every call that leaves the library -/
 structure World (ω : Type) where
   /-- `DoPoll(pfds, count, timeoutMs)` = `::poll`: its `int` result -/
